@@ -129,8 +129,10 @@ impl Acc {
 }
 
 /// Pixel counts of the single large images every batch check also converts: just above 2^16 and
-/// 2^18 and not multiples of 2, 3 or 4 (size thresholds for LUTs, banding, threading and their remainders).
-pub const BIG_SIZES: [usize; 2] = [65_539, 262_147];
+/// 2^18 and not multiples of 2, 3 or 4 (size thresholds for LUTs, banding, threading and their
+/// remainders), and one frame just above HD video size, 1281x721 = 923,601 pixels (odd in both
+/// dimensions; `img::shape_of` gives it that shape).
+pub const BIG_SIZES: [usize; 3] = [65_539, 262_147, 923_601];
 
 static LIGHT: std::sync::atomic::AtomicBool = std::sync::atomic::AtomicBool::new(false);
 /// "matrix tier": reduced alphabets used when the same checks run once per build configuration (C20 quick).
